@@ -24,6 +24,7 @@ EXTENDS Naturals, Sequences, FiniteSets, TLC
 CONSTANTS Publishers,          \* publisher process ids
           Readers,             \* reader process ids (each performs one lookup-like request)
           RemoteReaders,       \* readers served by ANOTHER instance: own manager (own cache, no access to the transaction log)
+          LockFreeReaders,     \* remote readers that do not take the instance's cache lock (get_epoch_hash): the poller does not wait for them
           Keys,                \* node keys every publisher reads and rewrites, in this order (a sequence); Keys[1] is the root
           HasCache,
           MaxFaults,           \* number of storage operations that may fail
@@ -309,7 +310,7 @@ RNode(r) ==
 RPoll ==
   /\ RemoteReaders # {}
   /\ rcache.hasAzks /\ db.azks > rcache.azks
-  /\ \A r \in RemoteReaders : pc[r] \in {"r_read_epoch", "done"}     \* the write lock waits for readers in flight
+  /\ \A r \in RemoteReaders \ LockFreeReaders : pc[r] \in {"r_read_epoch", "done"}     \* the write lock waits for readers in flight (those that take the read lock)
   /\ rcache' = [hasAzks |-> TRUE, azks |-> db.azks, nodes |-> <<>>]
   /\ UNCHANGED <<db, txnActive, txnLog, cache, pc, loc, faults, published, ret>>
 
